@@ -22,7 +22,38 @@ type (
 		Q string
 		R bool
 	}
+	// two anonymous struct types whose printed forms (reflect.Type.String) agree
+	// in their first hundred bytes and differ in the last field only
+	anonLong1 = struct {
+		FirstFieldWithALongName  int
+		SecondFieldWithALongName string
+		ThirdFieldWithALongName  bool
+		TailOne                  int
+	}
+	anonLong2 = struct {
+		FirstFieldWithALongName  int
+		SecondFieldWithALongName string
+		ThirdFieldWithALongName  bool
+		TailTwo                  string
+	}
 )
+
+// names has a field name of every length class and casing pattern the key
+// rules distinguish (one, two, three, four and five letters; capitals at the
+// front, inside, everywhere); no two names collide when lower-cased.
+type names struct {
+	A     int
+	Bc    int
+	DE    int
+	Fgh   int
+	IJK   int
+	URL   string
+	LMn   int
+	OpQ   int
+	Rstu  int
+	VWXY  int
+	ZaBcd int
+}
 
 // namedCase is one value of a named (or anonymous, declared) type.
 type namedCase struct {
@@ -57,6 +88,15 @@ func namedCases() []namedCase {
 			h := &typesa.Holder{Z: 3}
 			h.In.P, h.In.Q = 1, "q"
 			return h
+		}},
+		{name: "names/nonzero", typ: "field-names", mk: func() any {
+			return &names{A: 1, Bc: 2, DE: 3, Fgh: 4, IJK: 5, URL: "u", LMn: 6, OpQ: 7, Rstu: 8, VWXY: 9, ZaBcd: 10}
+		}},
+		{name: "anonLong1/nonzero", typ: "anonymous-struct", mk: func() any {
+			return &anonLong1{FirstFieldWithALongName: 1, SecondFieldWithALongName: "s", ThirdFieldWithALongName: true, TailOne: 4}
+		}},
+		{name: "anonLong2/nonzero", typ: "anonymous-struct", mk: func() any {
+			return &anonLong2{FirstFieldWithALongName: 1, SecondFieldWithALongName: "s", ThirdFieldWithALongName: true, TailTwo: "t"}
 		}},
 		{name: "anon1/nonzero", typ: "anonymous-struct", mk: func() any { return &anon1{P: 1, Q: "x"} }},
 		{name: "anon2/nonzero", typ: "anonymous-struct", mk: func() any { return &anon2{Q: "y", R: true} }},
